@@ -138,7 +138,8 @@ type ESetSize struct{ Iter Expr } // new Set(ITER).size
 type EMapSize struct{ Iter Expr } // new Map(ITER).size  (items are not entry objects: TypeError + IteratorClose)
 type EIt struct {
 	Site, N, Flags int
-	Wrap           bool // mkIb: an iterable whose [Symbol.iterator]() method is a probe of its own (site+3) that may throw or return a non-object
+	Wrap           bool    // mkIb: an iterable whose [Symbol.iterator]() method is a probe of its own (site+3) that may throw or return a non-object
+	Drv            *EDrive // mkIb only: a driver operation that [Symbol.iterator]() performs when its decision is 3 (re-entrancy during GetIterator)
 }
 type EArr struct{ Elems []Expr }
 type EGenCall struct {
@@ -237,12 +238,13 @@ function mkIt(s, n, fl) {
   };
   return it;
 }
-function mkIb(s, n, fl) {
+function mkIb(s, n, fl, drv) {
   var o = {};
   o[Symbol.iterator] = function() {
     var d = P(s + 3) % 4;
     if (d === 1) throw 1000 + s + 3;
     if (d === 2) return 5;
+    if (d === 3 && drv) drv();
     return mkIt(s, n, fl);
   };
   return o;
@@ -533,6 +535,9 @@ func exprJS(e Expr) string {
 		return sb.String()
 	case *EIt:
 		if e.Wrap {
+			if e.Drv != nil {
+				return fmt.Sprintf("mkIb(%d, %d, %d, function() { return %s; })", e.Site, e.N, e.Flags, exprJS(e.Drv))
+			}
 			return fmt.Sprintf("mkIb(%d, %d, %d)", e.Site, e.N, e.Flags)
 		}
 		return fmt.Sprintf("mkIt(%d, %d, %d)", e.Site, e.N, e.Flags)
